@@ -401,6 +401,26 @@ func byteEdits(r *RNG, data []byte, thorough bool, f func(name string, data []by
 		// keep length prefixes moderate: a random 32-bit count would only exercise allocation
 		f(fmt.Sprintf("random=%d", i), d)
 	}
+	// two adjacent 32-bit counters whose sum wraps around to the original sum (witness header: nbPublic, nbSecret)
+	if n >= 8 {
+		be := func(d []byte, off int) uint32 {
+			return uint32(d[off])<<24 | uint32(d[off+1])<<16 | uint32(d[off+2])<<8 | uint32(d[off+3])
+		}
+		put := func(d []byte, off int, v uint32) {
+			d[off], d[off+1], d[off+2], d[off+3] = byte(v>>24), byte(v>>16), byte(v>>8), byte(v)
+		}
+		a, b := be(data, 0), be(data, 4)
+		for _, k := range []uint32{1, 2, 3} {
+			d := append([]byte{}, data...)
+			put(d, 0, a+k)
+			put(d, 4, b-k) // wraps below zero
+			f(fmt.Sprintf("wrap-counters=+%d", k), d)
+			d2 := append([]byte{}, data...)
+			put(d2, 0, a-k)
+			put(d2, 4, b+k)
+			f(fmt.Sprintf("wrap-counters=-%d", k), d2)
+		}
+	}
 	// set every 4-byte big-endian length prefix candidate to small / moderately large values
 	for off := 0; off+4 <= n && off < 64; off += 4 {
 		for _, v := range []uint32{0, 1, 2, 1000} {
